@@ -265,6 +265,112 @@ func runC10(r *Run) {
 	}
 	r.extra["programs"] = len(progs)
 	_ = strings.Join
+	c10PoolHistories(r)
+}
+
+// c10PoolHistories runs histories of Push(nil) / Push(caller's map) / Set / Pop / Lookup on the real Stack,
+// whose Push(nil) draws from the process-wide sync.Pool that every earlier render and history of this
+// process has been feeding, and hands them to the pool model (Run/RunC10.v): what each lookup sees and
+// what each caller-owned map holds when it comes back.
+func c10PoolHistories(r *Run) {
+	r.Imports = []string{"Model.MapOrder"}
+	keys := []string{"a", "b", "c", "d"}
+	vals := []string{"1", "2", "x", "", "old"}
+	n := 400
+	if r.Thorough() {
+		n = 6000
+	}
+	for i := 0; i < n; i++ {
+		st := vuego.NewStack(nil)
+		type own struct {
+			id int
+			m  map[string]any
+		}
+		var onStack []*own // nil entries: scopes that are not caller-owned
+		onStack = append(onStack, nil)
+		var released []*own
+		var ops []string
+		var desc []string
+		res := []Obs{}
+		nextID := 0
+		pushes, reuse := 0, false
+		for j, k := 0, 4+r.Rng.Intn(28); j < k; j++ {
+			switch x := r.Rng.Intn(12); {
+			case x < 3:
+				st.Push(nil)
+				onStack = append(onStack, nil)
+				ops = append(ops, "CO (PPush bytes)")
+				desc = append(desc, "push")
+				pushes++
+			case x < 4:
+				m := map[string]any{}
+				var lit []string
+				for _, kk := range keys {
+					if r.Rng.Intn(3) == 0 {
+						v := Pick(r.Rng, vals)
+						m[kk] = v
+						lit = append(lit, "("+coqBytes(kk)+", "+coqBytes(v)+")")
+					}
+				}
+				o := &own{id: nextID, m: m}
+				nextID++
+				st.Push(m)
+				onStack = append(onStack, o)
+				ops = append(ops, fmt.Sprintf("CO (PPushOwn bytes %d [%s])", o.id, strings.Join(lit, "; ")))
+				desc = append(desc, fmt.Sprintf("push-own#%d%v", o.id, m))
+			case x < 7:
+				kk, v := Pick(r.Rng, keys), Pick(r.Rng, vals)
+				st.Set(kk, v)
+				ops = append(ops, "CO (PSet bytes "+coqBytes(kk)+" "+coqBytes(v)+")")
+				desc = append(desc, "set "+kk+"="+v)
+			case x < 9:
+				st.Pop()
+				if len(onStack) > 0 {
+					if o := onStack[len(onStack)-1]; o != nil {
+						released = append(released, o)
+					}
+					onStack = onStack[:len(onStack)-1]
+				}
+				if len(onStack) == 0 {
+					onStack = append(onStack, nil)
+				}
+				if pushes > 0 {
+					reuse = true
+				}
+				ops = append(ops, "CO (PPop bytes)")
+				desc = append(desc, "pop")
+			default:
+				kk := Pick(r.Rng, keys)
+				v, ok := st.Lookup(kk)
+				if ok {
+					res = append(res, L(A("some"), A(fmt.Sprint(v))))
+				} else {
+					res = append(res, L(A("none")))
+				}
+				ops = append(ops, "CLook "+coqBytes(kk))
+				desc = append(desc, "lookup "+kk)
+			}
+		}
+		rel := []Obs{}
+		for _, o := range released {
+			sc := []Obs{}
+			for _, kk := range keys {
+				if v, ok := o.m[kk]; ok {
+					sc = append(sc, L(A("some"), A(fmt.Sprint(v))))
+				} else {
+					sc = append(sc, L(A("none")))
+				}
+			}
+			rel = append(rel, L(A(fmt.Sprint(o.id)), L(sc...)))
+		}
+		res = append(res, L(rel...))
+		// leave the scopes of this history in the pool for the next one, as a finished render does
+		for len(onStack) > 1 {
+			st.Pop()
+			onStack = onStack[:len(onStack)-1]
+		}
+		r.Case("pool-history", "{| c_ops := ["+strings.Join(ops, "; ")+"] |}", L(res...), desc, map[string]string{"stream": "pool-history"}, reuse)
+	}
 }
 
 func c10RenderFuncs(src string, data map[string]any, funcs vuego.FuncMap) (string, error) {
